@@ -72,6 +72,27 @@ pub fn run_sqlhist(inp: &mut dyn BufRead, out: &mut dyn Write) {
                         Ok(()) => "u".into(),
                         Err(_) => "err".into(),
                     },
+                    "setdups" => {
+                        // the duplicates policy switched on the open object; a refusal (rows that are duplicates under
+                        // the new policy) is answered by switching back
+                        let b = parse_bool(t[1]);
+                        match h.ignore_dups(b) {
+                            Ok(()) => {
+                                cur.1 = b;
+                                "u".into()
+                            }
+                            Err(_) => {
+                                h.ignore_dups(!b).expect("switching back");
+                                "x".into()
+                            }
+                        }
+                    }
+                    "setspace" => {
+                        let b = parse_bool(t[1]);
+                        h.ignore_space(b);
+                        cur.0 = b;
+                        "u".into()
+                    }
                     "reopen2" => {
                         // the database reopened with ANOTHER duplicates / blanks policy
                         drop(h);
